@@ -138,7 +138,8 @@ theorem makeRemoteCore_some (t : Str) (u : UrlRec) (sub : Str) (a : RemoteAddr)
           git_query := fun _ => by simp only [hq]; exact hqk
           no_checksum := fun h => absurd h hnotArch
           archive_kind := fun h => absurd h hnotArch
-          sub_ok := hsub }
+          sub_ok := hsub
+          archive_stored := fun h => absurd h hnotArch }
       · subst himpl
         simp only [show ("httpSourceType" = "gitSourceType") = False by decide, if_false] at hprep
         obtain ⟨hs, hchk, hkind⟩ := prepareHttp_some u u' hprep
@@ -159,11 +160,16 @@ theorem makeRemoteCore_some (t : Str) (u : UrlRec) (sub : Str) (a : RemoteAddr)
           no_checksum := fun _ => by
             simp only [hq, hu'q, valuesOf_eq_lookupQ]; exact hchk
           archive_kind := fun _ => by
-            simp only [hq, hu'q, hep, hrq, htq, valuesOf_eq_lookupQ]
+            simp only [hq, hu'q, hep, valuesOf_eq_lookupQ]
             rcases hkind with ⟨ha, e, hsuf⟩ | ⟨v, ha, hv, e⟩
             · left; subst e; exact ⟨ha, hsuf⟩
-            · right; subst e; exact ⟨v, ha, hv, rfl⟩
-          sub_ok := hsub }
+            · right; subst e; exact ⟨v, ha, hv⟩
+          sub_ok := hsub
+          archive_stored := fun _ => by
+            simp only [hq, hu'q, hrq, htq, valuesOf_eq_lookupQ]
+            rcases hkind with ⟨ha, _, _⟩ | ⟨v, _, _, e⟩
+            · intro hne; exact absurd ha hne
+            · intro _; subst e; rfl }
 
 /-! ## `ParseRemoteSource` after the front end -/
 
@@ -204,5 +210,364 @@ theorem remoteFront_sub (given ty pkgRaw sub : Str) (h : remoteFront given = .ur
       split at h
       · cases h; rw [hv.1]; exact hv.2
       · cases h; rw [hv.1]; exact hv.2
+
+/-! ## completeness: what follows the grammar is accepted -/
+
+theorem prepareGit_complete (u : UrlRec)
+    (hs : u.scheme = "https".toList ∨ u.scheme = "ssh".toList)
+    (hq : ∀ kv ∈ u.query, kv.1 = "ref".toList ∧ kv.2.length ≤ 1) : prepareGit u = some u := by
+  unfold prepareGit
+  have h1 : (Generated.gitSchemes.map String.toList).contains u.scheme = true := by
+    rcases hs with e | e <;> rw [e] <;> decide
+  have h2 : u.query.any (fun kv =>
+      !(Generated.gitQueryKeys.map String.toList).contains kv.1 || decide (kv.2.length > 1)) = false := by
+    rw [List.any_eq_false]
+    intro kv hkv
+    obtain ⟨e1, e2⟩ := hq kv hkv
+    have : (Generated.gitQueryKeys.map String.toList).contains kv.1 = true := by rw [e1]; decide
+    simp only [this, Bool.not_true, Bool.false_or]
+    simp only [decide_eq_true_eq]; omega
+  simp only [h1, Bool.not_true, Bool.false_eq_true, if_false, h2]
+
+theorem prepareHttp_complete_suffix (u : UrlRec) (hs : u.scheme = "https".toList)
+    (hc : lookupQ u.query "checksum".toList = []) (ha : lookupQ u.query "archive".toList = [])
+    (hsuf : hasSuffix u.escapedPath ".tar.gz".toList = true ∨
+      hasSuffix u.escapedPath ".tgz".toList = true) : prepareHttp u = some u := by
+  unfold prepareHttp
+  have h1 : ¬ u.scheme = "http".toList := by rw [hs]; decide
+  have h3 : Generated.httpSuffixes.any (fun s => hasSuffix u.escapedPath s.toList) = true := by
+    simp only [Generated.httpSuffixes, List.any_cons, List.any_nil, Bool.or_false, Bool.or_eq_true]
+    exact hsuf
+  have h2 : (u.scheme ≠ "https".toList) = False := by simp [hs]
+  simp only [h1, h2, if_false, ha, hc, List.length_nil, Nat.lt_irrefl, h3, if_true, ne_eq,
+    not_true_eq_false]
+
+theorem prepareHttp_complete_archive (u : UrlRec) (v : Str) (hs : u.scheme = "https".toList)
+    (hc : lookupQ u.query "checksum".toList = []) (ha : lookupQ u.query "archive".toList = [v])
+    (hv : v = "tar.gz".toList ∨ v = "tgz".toList) :
+    prepareHttp u = some { u with rawQuery := u.tgzQuery } := by
+  unfold prepareHttp
+  have h1 : ¬ u.scheme = "http".toList := by rw [hs]; decide
+  have h3 : (Generated.httpArchiveValues.map String.toList).contains v = true := by
+    rcases hv with e | e <;> rw [e] <;> decide
+  have h2 : (u.scheme ≠ "https".toList) = False := by simp [hs]
+  simp only [h1, h2, ne_eq, not_true_eq_false, if_false, ha, hc, List.length_nil, Nat.lt_irrefl,
+    List.length_cons, Nat.zero_add, Nat.lt_add_one, if_true, List.headD_cons, h3, Bool.not_true,
+    Bool.false_eq_true]
+
+theorem makeRemoteCore_git (u : UrlRec) (sub : Str)
+    (hs : u.scheme = "https".toList ∨ u.scheme = "ssh".toList)
+    (hq : ∀ kv ∈ u.query, kv.1 = "ref".toList ∧ kv.2.length ≤ 1) :
+    makeRemoteCore "git".toList u sub =
+      some { sourceType := "git".toList, url := normaliseRaw u, subPath := sub } := by
+  unfold makeRemoteCore
+  have hf : Generated.sourceTypes.find? (·.1.toList = "git".toList) = some ("git", "gitSourceType") := by
+    decide
+  simp only [hf, if_true]
+  rw [prepareGit_complete u hs hq]
+
+theorem makeRemoteCore_http (ty : Str) (u u' : UrlRec) (sub : Str)
+    (ht : ty = "http".toList ∨ ty = "https".toList) (hp : prepareHttp u = some u') :
+    makeRemoteCore ty u sub = some { sourceType := ty, url := normaliseRaw u', subPath := sub } := by
+  unfold makeRemoteCore
+  have hf : ∃ nm, Generated.sourceTypes.find? (·.1.toList = ty) = some (nm, "httpSourceType") := by
+    rcases ht with rfl | rfl
+    · exact ⟨"http", by decide⟩
+    · exact ⟨"https", by decide⟩
+  obtain ⟨nm, hf⟩ := hf
+  simp only [hf, show ("httpSourceType" = "gitSourceType") = False by decide, if_false, hp]
+
+/-- whatever follows the documented grammar is accepted by `makeRemoteSource` -/
+theorem makeRemoteCore_complete (ty : Str) (u : UrlRec) (sub : Str)
+    (g : Grammar { sourceType := ty, url := u, subPath := sub }) :
+    ∃ u', makeRemoteCore ty u sub = some { sourceType := ty, url := normaliseRaw u', subPath := sub } ∧
+      (u' = u ∨ u' = { u with rawQuery := u.tgzQuery }) := by
+  rcases g.type_ok with hg | ha
+  · have ht : ty = "git".toList := hg
+    subst ht
+    exact ⟨u, makeRemoteCore_git u sub (g.git_scheme hg) (g.git_query hg), Or.inl rfl⟩
+  · have hs : u.scheme = "https".toList := g.archive_scheme ha
+    have hc : lookupQ u.query "checksum".toList = [] := by
+      rw [← valuesOf_eq_lookupQ]; exact g.no_checksum ha
+    rcases g.archive_kind ha with ⟨h0, hsuf⟩ | ⟨v, hv, hvv⟩
+    · exact ⟨u, makeRemoteCore_http ty u u sub ha
+        (prepareHttp_complete_suffix u hs hc (by rw [← valuesOf_eq_lookupQ]; exact h0) hsuf), Or.inl rfl⟩
+    · exact ⟨_, makeRemoteCore_http ty u _ sub ha
+        (prepareHttp_complete_archive u v hs hc (by rw [← valuesOf_eq_lookupQ]; exact hv) hvv), Or.inr rfl⟩
+
+/-- `ParseRemoteSource` after the front end, for a URL whose scheme is already lower-case -/
+theorem parseRemoteWith_lowerScheme (p sub : Str) (u : UrlRec) (hne : u.scheme ≠ [])
+    (hlow : toLowerAscii u.scheme = u.scheme) (huser : u.hasUser = false) (hqe : u.queryErr = false) :
+    parseRemoteWith p sub (some u) =
+      (if toLowerAscii p = [] then makeRemoteCore u.scheme u sub
+       else if toLowerAscii p = u.scheme then none
+       else makeRemoteCore (toLowerAscii p) u sub) := by
+  rcases u with ⟨scheme, opaq, hasUser, host, path, rawPath, forceQuery, rawQuery, fragment,
+    rawFragment, query, queryErr, escapedPath, escapedFragment, tgzQuery⟩
+  simp only at hne hlow huser hqe
+  subst huser hqe
+  unfold parseRemoteWith
+  simp only [hne, if_false, Bool.false_eq_true, hlow]
+  by_cases h1 : toLowerAscii p = []
+  · simp only [h1, if_true]
+  · by_cases h2 : toLowerAscii p = scheme
+    · simp only [h2, hne, if_false, if_true]
+    · simp only [h1, h2, if_false]
+
+/-! ## ASCII lower-casing -/
+def lowerChar (c : Char) : Char := if 'A' ≤ c ∧ c ≤ 'Z' then Char.ofNat (c.toNat + 32) else c
+theorem toLowerAscii_eq_map (s : Str) : toLowerAscii s = s.map lowerChar := rfl
+
+theorem lowerChar_table : ∀ n : Fin 26, lowerChar (lowerChar (Char.ofNat (65 + n.val))) = lowerChar (Char.ofNat (65 + n.val)) := by
+  decide
+
+theorem lowerChar_idem (c : Char) : lowerChar (lowerChar c) = lowerChar c := by
+  by_cases h : 'A' ≤ c ∧ c ≤ 'Z'
+  · have h1 : 65 ≤ c.toNat ∧ c.toNat ≤ 90 := by
+      obtain ⟨a, b⟩ := h
+      rw [Char.le_def] at a b
+      exact ⟨a, b⟩
+    have e : c = Char.ofNat (65 + (c.toNat - 65)) := by
+      rw [show 65 + (c.toNat - 65) = c.toNat by omega, Char.ofNat_toNat]
+    have := lowerChar_table ⟨c.toNat - 65, by omega⟩
+    simp only at this
+    rw [← e] at this
+    exact this
+  · have : lowerChar c = c := by simp [lowerChar, h]
+    rw [this, this]
+
+theorem toLowerAscii_idem (s : Str) : toLowerAscii (toLowerAscii s) = toLowerAscii s := by
+  simp only [toLowerAscii_eq_map, List.map_map]
+  apply List.map_congr_left
+  intro c _
+  exact lowerChar_idem c
+
+theorem toLowerAscii_eq_nil (s : Str) : toLowerAscii s = [] ↔ s = [] := by
+  simp [toLowerAscii]
+/-! ## the front end: host shorthands -/
+
+/-- the two shorthand hosts -/
+def IsShortHost (host : Str) : Prop := host = "github.com".toList ∨ host = "gitlab.com".toList
+
+/-- characters that may not occur in the organisation / repository part of a shorthand -/
+def ShortPart (s : Str) : Prop := s ≠ [] ∧ '/' ∉ s ∧ '?' ∉ s ∧ '\n' ∉ s
+
+theorem shortHost_noSlash (host : Str) (h : IsShortHost host) : '/' ∉ host ∧ '?' ∉ host ∧ '\n' ∉ host := by
+  rcases h with rfl | rfl <;> decide
+
+theorem splitOn_short3 (host org repo : Str) (hh : IsShortHost host) (ho : ShortPart org)
+    (hr : ShortPart repo) :
+    splitOn '/' (host ++ '/' :: (org ++ '/' :: repo)) = [host, org, repo] := by
+  rw [splitOn_append, splitOn_append, splitOn_of_noSep '/' host (shortHost_noSlash host hh).1,
+    splitOn_of_noSep '/' org ho.2.1, splitOn_of_noSep '/' repo hr.2.1]
+  rfl
+
+theorem splitOn_short4 (host org repo sub : Str) (hh : IsShortHost host) (ho : ShortPart org)
+    (hr : ShortPart repo) :
+    splitOn '/' (host ++ '/' :: (org ++ '/' :: (repo ++ '/' :: sub))) =
+      host :: org :: repo :: splitOn '/' sub := by
+  rw [splitOn_append, splitOn_append, splitOn_append,
+    splitOn_of_noSep '/' host (shortHost_noSlash host hh).1,
+    splitOn_of_noSep '/' org ho.2.1, splitOn_of_noSep '/' repo hr.2.1]
+  rfl
+
+/-- `.git` is appended unless the URL already ends in `git` -/
+def withDotGit (url0 : Str) : Str := if hasSuffix url0 "git".toList then url0 else url0 ++ ".git".toList
+
+theorem shorthand_other (host rest : Str) (hh : IsShortHost host) (pre : String)
+    (hp : pre ∈ Generated.shorthandPrefixes) (hne : pre.toList ≠ host ++ ['/']) :
+    shorthand pre.toList (host ++ '/' :: rest) = none := by
+  unfold shorthand
+  have : hasPrefix (host ++ '/' :: rest) pre.toList = false := by
+    simp only [Generated.shorthandPrefixes, List.mem_cons, List.not_mem_nil, or_false] at hp
+    rcases hh with rfl | rfl <;> rcases hp with rfl | rfl <;>
+      first
+        | exact absurd rfl hne
+        | simp [hasPrefix, List.isPrefixOf]
+  simp [this]
+
+theorem shorthand_hit3 (host org repo : Str) (hh : IsShortHost host) (ho : ShortPart org)
+    (hr : ShortPart repo) :
+    shorthand (host ++ ['/']) (host ++ '/' :: (org ++ '/' :: repo)) =
+      some (some ("git::".toList ++ withDotGit ("https://".toList ++ (host ++ '/' :: (org ++ '/' :: repo))))) := by
+  unfold shorthand
+  have h1 : hasPrefix (host ++ '/' :: (org ++ '/' :: repo)) (host ++ ['/']) = true := by
+    unfold hasPrefix
+    rw [List.isPrefixOf_iff_prefix]
+    exact ⟨org ++ '/' :: repo, by simp⟩
+  simp only [h1, Bool.not_true, Bool.false_eq_true, if_false, splitOn_short3 host org repo hh ho hr]
+  have e1 : [host, org, repo].length = 3 := rfl
+  have e2 : List.take 3 [host, org, repo] = [host, org, repo] := rfl
+  have e3 : joinWith '/' [host, org, repo] = host ++ '/' :: (org ++ '/' :: repo) := rfl
+  simp only [e1, Nat.lt_irrefl, if_false, e2, e3, gt_iff_lt]
+  rfl
+
+theorem shorthand_hit4 (host org repo sub : Str) (hh : IsShortHost host) (ho : ShortPart org)
+    (hr : ShortPart repo) :
+    shorthand (host ++ ['/']) (host ++ '/' :: (org ++ '/' :: (repo ++ '/' :: sub))) =
+      some (some ("git::".toList ++ (withDotGit ("https://".toList ++ (host ++ '/' :: (org ++ '/' :: repo)))
+        ++ '/' :: '/' :: sub))) := by
+  unfold shorthand
+  have h1 : hasPrefix (host ++ '/' :: (org ++ '/' :: (repo ++ '/' :: sub))) (host ++ ['/']) = true := by
+    unfold hasPrefix
+    rw [List.isPrefixOf_iff_prefix]
+    exact ⟨org ++ '/' :: (repo ++ '/' :: sub), by simp⟩
+  have hlen : (splitOn '/' sub).length > 0 := List.length_pos_iff.mpr (splitOn_ne_nil '/' sub)
+  simp only [h1, Bool.not_true, Bool.false_eq_true, if_false, splitOn_short4 host org repo sub hh ho hr]
+  have h3 : ¬ (host :: org :: repo :: splitOn '/' sub).length < 3 := by
+    simp only [List.length_cons]; omega
+  have h4 : (host :: org :: repo :: splitOn '/' sub).length > 3 := by
+    simp only [List.length_cons]; omega
+  have e2 : List.take 3 (host :: org :: repo :: splitOn '/' sub) = [host, org, repo] := rfl
+  have e2' : List.drop 3 (host :: org :: repo :: splitOn '/' sub) = splitOn '/' sub := rfl
+  have e3 : joinWith '/' [host, org, repo] = host ++ '/' :: (org ++ '/' :: repo) := rfl
+  simp only [h3, h4, if_false, if_true, e2, e2', e3, joinWith_splitOn]
+  have e4 : "//".toList = ['/', '/'] := rfl
+  rw [e4]
+  unfold withDotGit
+  simp only [List.append_assoc, List.cons_append, List.nil_append]
+
+
+theorem expandShorthands_short (host rest r : Str) (hh : IsShortHost host)
+    (hit : shorthand (host ++ ['/']) (host ++ '/' :: rest) = some (some r)) :
+    expandShorthands (host ++ '/' :: rest) = some r := by
+  unfold expandShorthands
+  simp only [Generated.shorthandPrefixes, List.foldl]
+  rcases hh with rfl | rfl
+  · have e1 : "github.com/".toList = "github.com".toList ++ ['/'] := by decide
+    have h2 := shorthand_other "github.com".toList rest (Or.inl rfl) "gitlab.com/" (by decide) (by decide)
+    rw [e1, hit, h2]
+  · have e1 : "gitlab.com/".toList = "gitlab.com".toList ++ ['/'] := by decide
+    have h2 := shorthand_other "gitlab.com".toList rest (Or.inr rfl) "github.com/" (by decide) (by decide)
+    rw [e1, hit, h2]
+
+/-! no double slash in `host/org/repo` -/
+
+theorem indexOf_ss_of_noSlash (s : Str) (h : '/' ∉ s) : indexOf ['/', '/'] s = none := by
+  cases hi : indexOf ['/', '/'] s with
+  | none => rfl
+  | some i =>
+    obtain ⟨a, r, e, _⟩ := indexOf_split _ s i hi
+    exact absurd (by rw [e]; simp) h
+
+theorem indexOf_ss_cons (s X : Str) (hs : '/' ∉ s) (hX : X.head? ≠ some '/')
+    (hi : indexOf ['/', '/'] X = none) : indexOf ['/', '/'] (s ++ '/' :: X) = none := by
+  induction s with
+  | nil =>
+    rw [List.nil_append, indexOf_cons]
+    have : List.isPrefixOf ['/', '/'] ('/' :: X) = false := by
+      cases X with
+      | nil => rfl
+      | cons y X' =>
+        have : y ≠ '/' := by intro e; apply hX; simp [e]
+        simp [List.isPrefixOf, this.symm]
+    simp [this, hi]
+  | cons c s' ih =>
+    have hc : c ≠ '/' := by intro e; apply hs; simp [e]
+    have hs' : '/' ∉ s' := fun hm => hs (List.mem_cons_of_mem _ hm)
+    rw [List.cons_append, indexOf_cons]
+    have : List.isPrefixOf ['/', '/'] (c :: (s' ++ '/' :: X)) = false := by
+      simp [List.isPrefixOf, hc.symm]
+    simp [this, ih hs']
+
+theorem rm_head_ne_slash (p t : Str) (hne : p ≠ []) (hp : '/' ∉ p) : (p ++ t).head? ≠ some '/' := by
+  cases p with
+  | nil => exact absurd rfl hne
+  | cons c p' =>
+    have hc : c ≠ '/' := by intro e; apply hp; simp [e]
+    simp [hc]
+
+/-- `host/org/last` has no `//`, also when followed by one `/` -/
+theorem indexOf_ss_three (host org last : Str) (hh : host ≠ [] ∧ '/' ∉ host) (ho : org ≠ [] ∧ '/' ∉ org)
+    (hl : last ≠ [] ∧ '/' ∉ last) :
+    indexOf ['/', '/'] (host ++ '/' :: (org ++ '/' :: last)) = none ∧
+    indexOf ['/', '/'] (host ++ '/' :: (org ++ '/' :: last) ++ ['/']) = none := by
+  constructor
+  · apply indexOf_ss_cons host _ hh.2 (rm_head_ne_slash org _ ho.1 ho.2)
+    apply indexOf_ss_cons org _ ho.2
+    · have := rm_head_ne_slash last [] hl.1 hl.2; simpa using this
+    · exact indexOf_ss_of_noSlash last hl.2
+  · have e : host ++ '/' :: (org ++ '/' :: last) ++ ['/'] = host ++ '/' :: (org ++ '/' :: (last ++ '/' :: [])) := by
+      simp
+    rw [e]
+    apply indexOf_ss_cons host _ hh.2 (rm_head_ne_slash org _ ho.1 ho.2)
+    apply indexOf_ss_cons org _ ho.2 (rm_head_ne_slash last _ hl.1 hl.2)
+    exact indexOf_ss_cons last [] hl.2 (by simp) rfl
+
+theorem splitSourceType_git (r : Str) (hne : r ≠ []) (hnl : '\n' ∉ r) :
+    splitSourceType ("git::".toList ++ r) = some ("git".toList, r) := by
+  have e : "git::".toList ++ r = 'g' :: 'i' :: 't' :: ':' :: ':' :: r := rfl
+  have h1 : isAlnumAscii 'g' = true := by decide
+  have h2 : isAlnumAscii 'i' = true := by decide
+  have h3 : isAlnumAscii 't' = true := by decide
+  have h4 : isAlnumAscii ':' = false := by decide
+  have hc : r.contains '\n' = false := by
+    apply Bool.eq_false_iff.mpr
+    intro h; exact hnl (List.contains_iff_mem.mp h)
+  rw [e]
+  unfold splitSourceType
+  simp only [List.takeWhile_cons, List.dropWhile_cons, h1, h2, h3, h4, if_true, Bool.false_eq_true,
+    if_false]
+  simp [hne, hnl]
+
+
+theorem withDotGit_shape (host org repo : Str) (hr : ShortPart repo) :
+    ∃ last, ShortPart last ∧
+      withDotGit ("https://".toList ++ (host ++ '/' :: (org ++ '/' :: repo))) =
+        "https".toList ++ ':' :: '/' :: '/' :: (host ++ '/' :: (org ++ '/' :: last)) := by
+  unfold withDotGit
+  split
+  · exact ⟨repo, hr, by simp⟩
+  · refine ⟨repo ++ ".git".toList, ⟨by simp [hr.1], ?_, ?_, ?_⟩, by simp⟩
+    · simp [hr.2.1]
+    · simp [hr.2.2.1]
+    · simp [hr.2.2.2]
+
+/-- the expanded shorthand without sub-directory: package part and source type -/
+theorem front_of_expanded (host org last sub : Str) (hh : IsShortHost host) (ho : ShortPart org)
+    (hl : ShortPart last) (hsub : '?' ∉ sub) :
+    splitSubPath ("git::".toList ++ ("https".toList ++ ':' :: '/' :: '/' :: (host ++ '/' :: (org ++ '/' :: last)))) =
+      ("git::".toList ++ ("https".toList ++ ':' :: '/' :: '/' :: (host ++ '/' :: (org ++ '/' :: last))), []) ∧
+    splitSubPath ("git::".toList ++ ("https".toList ++ ':' :: '/' :: '/' :: (host ++ '/' :: (org ++ '/' :: last)) ++
+        '/' :: '/' :: sub)) =
+      ("git::".toList ++ ("https".toList ++ ':' :: '/' :: '/' :: (host ++ '/' :: (org ++ '/' :: last))), sub) ∧
+    splitSourceType ("git::".toList ++ ("https".toList ++ ':' :: '/' :: '/' :: (host ++ '/' :: (org ++ '/' :: last)))) =
+      some ("git".toList, "https".toList ++ ':' :: '/' :: '/' :: (host ++ '/' :: (org ++ '/' :: last))) := by
+  obtain ⟨hh1, hh2, hh3⟩ := shortHost_noSlash host hh
+  have hhne : host ≠ [] := by rcases hh with rfl | rfl <;> decide
+  obtain ⟨hss1, hss2⟩ := indexOf_ss_three host org last ⟨hhne, hh1⟩ ⟨ho.1, ho.2.1⟩ ⟨hl.1, hl.2.1⟩
+  have hsch : indexOf [':', '/', '/'] ("git::https".toList ++ [':', '/']) = none := by decide
+  have hq : '?' ∉ "git::https".toList ++ ':' :: '/' :: '/' :: (host ++ '/' :: (org ++ '/' :: last)) := by
+    simp only [List.mem_append, List.mem_cons, not_or]
+    exact ⟨by decide, by decide, by decide, by decide, hh2, by decide, ho.2.2.1, by decide, hl.2.2.1⟩
+  have e1 : "git::".toList ++ ("https".toList ++ ':' :: '/' :: '/' :: (host ++ '/' :: (org ++ '/' :: last))) =
+      "git::https".toList ++ ':' :: '/' :: '/' :: (host ++ '/' :: (org ++ '/' :: last)) := by
+    have : "git::https".toList = "git::".toList ++ "https".toList := by decide
+    rw [this]; simp
+  refine ⟨?_, ?_, ?_⟩
+  · rw [e1]
+    have := splitSubPath_eq _ [] hq (Or.inl rfl)
+    rw [List.append_nil] at this
+    rw [this, splitPre_none_url _ _ hsch hss1]
+    simp
+  · have e2 : "git::".toList ++ ("https".toList ++ ':' :: '/' :: '/' :: (host ++ '/' :: (org ++ '/' :: last)) ++
+        '/' :: '/' :: sub) =
+        "git::https".toList ++ ':' :: '/' :: '/' :: ((host ++ '/' :: (org ++ '/' :: last)) ++ '/' :: '/' :: sub) := by
+      have : "git::https".toList = "git::".toList ++ "https".toList := by decide
+      rw [this]; simp
+    have hq2 : '?' ∉ "git::https".toList ++ ':' :: '/' :: '/' ::
+        ((host ++ '/' :: (org ++ '/' :: last)) ++ '/' :: '/' :: sub) := by
+      simp only [List.mem_append, List.mem_cons, not_or]
+      exact ⟨by decide, by decide, by decide, by decide, ⟨hh2, by decide, ho.2.2.1, by decide, hl.2.2.1⟩,
+        by decide, by decide, hsub⟩
+    rw [e2, e1]
+    have := splitSubPath_eq _ [] hq2 (Or.inl rfl)
+    rw [List.append_nil] at this
+    rw [this, splitPre_join_url _ _ _ hsch hss2]
+    simp
+  · apply splitSourceType_git
+    · simp
+    · simp only [List.mem_append, List.mem_cons, not_or]
+      exact ⟨by decide, by decide, by decide, by decide, hh3, by decide, ho.2.2.2, by decide, hl.2.2.2⟩
 
 end Slug
